@@ -105,6 +105,43 @@ def wrap(kind, body, pg):
     raise ValueError(kind)
 
 
+def _engine_side_fault(evs):
+    """Did a device method raise while the engine was calling it on its own account (pause/resume bookkeeping,
+    clean-up) rather than executing a plan message?  Such a failure never reaches the plan: the engine closes the
+    plans, so no wrapper gets the chance to undo anything."""
+    cur = None
+    for e in evs:
+        if e.kind == "msg":
+            cur = e.d["mid"]
+        elif e.kind == "cmd" and e.d["mid"] == cur:
+            cur = None
+        elif e.kind == "dev" and e.d.get("fault") == "raise" and cur is None:
+            return True
+    return False
+
+
+def _stage_rule(evs, strict_order):
+    """Every device whose 'stage' message was executed is owed an 'unstage' message (reverse order)."""
+    out = []
+    msgs = [e for e in evs if e.kind == "msg"]
+    cmds = {}
+    for e in evs:
+        if e.kind == "cmd":
+            cmds.setdefault(e.d["mid"], []).append(e)
+    staged, unstaged = [], []
+    for m in msgs:
+        if m.d["cmd"] == "stage" and m.d["obj"] not in staged and any(c.d["end"] == "ok" for c in cmds.get(m.d["mid"], [])):
+            staged.append(m.d["obj"])
+        elif m.d["cmd"] == "unstage" and m.d["obj"] not in unstaged:
+            unstaged.append(m.d["obj"])
+    missing = [d for d in staged if d not in unstaged]
+    if missing:
+        out.append(V("stage-without-unstage", f"staged {staged}, unstaged {unstaged}: the wrapper issued no unstage message for {missing}", missing=missing))
+    elif strict_order and [d for d in unstaged if d in staged] != list(reversed(staged)):
+        out.append(V("unstage-order", f"staged {staged}, unstaged {unstaged} (expected reverse order)"))
+    return out
+
+
 def check(res):
     out = []
     v = View(res)
@@ -147,6 +184,15 @@ def check(res):
     )
     if first_cause is not None and (first_inner is None or first_cause < first_inner):
         res.notes["cause_before_wrapped_plan_started"] = 1
+        if (
+            "stage" in res.case["wrappers"]
+            and not any(e.kind == "dev" and e.d.get("fault") and e.d["method"] == "unstage" for e in evs)
+            and not _engine_side_fault(evs)
+            and ncauses <= 1  # e.g. a stage fault plus an abort landing inside the wrapper's own undo: not asserted
+        ):
+            # stage_wrapper is the exception: it stages inside its own try/finally, so whatever it managed to stage
+            # before the failure or interruption is still owed an 'unstage' message by the wrapper itself
+            out.extend(_stage_rule(evs, strict_order=False))
         return out
     last_inner = max((e.seq for e in evs if e.kind == "plan"), default=None)
     if first_cause is not None and last_inner is not None and first_cause > last_inner:
